@@ -24,7 +24,8 @@ EXPLANATION = (
     'agree on length and axis; the prefix is the tail slice of the very array that forms the body and the receiver '
     'drops exactly cp_size leading columns of rows of length fft_size + cp_size. A refactor that inlines an '
     'equivalent but different provider on one side would be reported (accepted risk). Not decided: exact recovery '
-    'through channels with memory <= CP, zero energy on guard/DC carriers.')
+    'through channels with memory <= CP, zero energy on guard/DC carriers.'
+    ' General rules also applied here (see DESIGN 10.5): validate-before-commit (no `raise` reachable after the object was already changed in a public mutator).')
 
 
 def neg_zero_slices(fn: FuncInfo):
